@@ -169,7 +169,7 @@ impl Hooks {
     pub const fn new(ns: &str) -> (r: Hooks) { Hooks {} }
     #[verifier::external_body]
     pub fn query_hook(&self, deps: Deps, hook: String) -> (r: StdResult<bool>)
-        ensures r is Ok ==> r->Ok_0 == deps.storage.view().whitelist.contains(hook@),
+        ensures r is Ok, r->Ok_0 == deps.storage.view().whitelist.contains(hook@),
     { unimplemented!() }
     // only `admin`'s holder may edit; add fails if present, remove fails if absent
     #[verifier::external_body]
